@@ -53,6 +53,9 @@ func (s *scanner) pushParseState(newParseState int, successState int) int {
 	if len(s.parseState) <= maxNestingDepth+1 { // the outermost value is depth 0
 		return successState
 	}
+	// like every other scan error: the scanner stays in the error state and says why
+	s.step = stateError
+	s.errContext = "exceeded max nesting depth"
 	return scanError
 }
 
